@@ -133,6 +133,7 @@ type World struct {
 	failNextMirrorCommit bool
 	signedHeaders        []signedHeader // sign-subtree headers that were answered with signatures
 	failUploadAt         int // auto mode: the n-th upload from now fails (0 = none)
+	failUploadMatch      func(key string) bool // auto mode: the first upload of a matching key fails
 	shadow     *incarnation // a second live witness process (C14)
 	shadowUsed bool
 	reqOfOp  map[string]*request
@@ -173,6 +174,15 @@ func (w *World) seam(inc *incarnation, ctx context.Context, kind, key string, mu
 			w.failNextMirrorCommit = false
 			w.sim.Probe("script.commit-failed")
 			return opResult{err: fmt.Errorf("%w (scripted lreplace)", errInjected)}
+		}
+		if kind == "up" && w.failUploadMatch != nil && w.failUploadMatch(key) {
+			// scripted fault: the first upload of a matching key fails without effect
+			w.failUploadMatch = nil
+			w.sim.Probe("script.upload-failed.match")
+			if w.curReq != nil {
+				w.curReq.faulted = true
+			}
+			return opResult{err: fmt.Errorf("%w (scripted upload %s)", errInjected, key)}
 		}
 		if kind == "up" && w.failUploadAt > 0 {
 			w.failUploadAt--
